@@ -2,7 +2,6 @@ package rpc
 
 import (
 	"context"
-	"sync"
 
 	"capnproto.org/go/capnp/v3"
 	"capnproto.org/go/capnp/v3/internal/errors"
@@ -60,10 +59,16 @@ type answer struct {
 	// to nil once results are ready.
 	pcall capnp.PipelineCaller
 
-	// pcalls is added to for every pending RecvCall and subtracted from
-	// for every RecvCall return (delivery acknowledgement).  This is used
-	// to satisfy the Returner.Return contract.
-	pcalls sync.WaitGroup
+	// pcallsPending is the number of calls handed to pcall whose
+	// delivery has not been acknowledged yet (PipelineRecv has not
+	// returned).  Such a call may still look up its target in the
+	// results' capability table, so Return waits for the count to drop
+	// to zero before taking the table out of the results message.  This
+	// also satisfies the Returner.Return contract.
+	pcallsPending int
+
+	// pcallsIdle, if non-nil, is closed when pcallsPending drops to zero.
+	pcallsIdle chan struct{}
 
 	// err is the error passed to (*answer).sendException or from creating
 	// the Return message.  Can only be read after resultsReady is set in
@@ -158,18 +163,47 @@ func (ans *answer) setBootstrap(c *capnp.Client) error {
 //
 // The caller must NOT be holding onto ans.c.mu or the sender lock.
 func (ans *answer) Return(e error) {
+	// Read the capability states without any locks held (this can call
+	// application code), but leave the table in place for now: pipelined
+	// calls that are still being delivered through ans.pcall read it.
 	var cstates []capnp.ClientState
 	if ans.results.IsValid() {
-		ans.resultCapTable, cstates = extractCapTable(ans.results.Message())
+		ctab := ans.results.Message().CapTable
+		cstates = make([]capnp.ClientState, len(ctab))
+		for i, c := range ctab {
+			cstates[i] = c.State()
+		}
 	}
 	ans.c.mu.Lock()
-	ans.c.lockSender()
+	for {
+		ans.c.lockSender()
+		if ans.pcallsPending == 0 {
+			break
+		}
+		// Don't hold the sender lock while waiting for delivery.
+		ans.c.unlockSender()
+		if ans.pcallsIdle == nil {
+			ans.pcallsIdle = make(chan struct{})
+		}
+		idle := ans.pcallsIdle
+		ans.c.mu.Unlock()
+		<-idle
+		ans.c.mu.Lock()
+	}
+	// No pipelined call is in flight and, until results are marked ready
+	// below (c.mu is held throughout), none can start.
+	if ans.results.IsValid() {
+		msg := ans.results.Message()
+		ans.resultCapTable, msg.CapTable = msg.CapTable, nil
+		if len(ans.resultCapTable) == 0 {
+			ans.resultCapTable, cstates = nil, nil
+		}
+	}
 	if e != nil {
 		rl := ans.sendException(e)
 		ans.c.unlockSender()
 		ans.c.mu.Unlock()
 		rl.release()
-		ans.pcalls.Wait()
 		ans.c.tasks.Done() // added by handleCall
 		return
 	}
@@ -185,14 +219,22 @@ func (ans *answer) Return(e error) {
 			}
 			// shutdown released c.mu
 			rl.release()
-			ans.pcalls.Wait()
 			return
 		}
 	}
 	ans.c.mu.Unlock()
 	rl.release()
-	ans.pcalls.Wait()
 	ans.c.tasks.Done() // added by handleCall
+}
+
+// pipelineCallDelivered records that a call handed to ans.pcall has been
+// delivered.  The caller must be holding onto ans.c.mu.
+func (ans *answer) pipelineCallDelivered() {
+	ans.pcallsPending--
+	if ans.pcallsPending == 0 && ans.pcallsIdle != nil {
+		close(ans.pcallsIdle)
+		ans.pcallsIdle = nil
+	}
 }
 
 // sendReturn sends the return message with results allocated by a
